@@ -24,7 +24,7 @@ meta['confirmed_here']={"how":"tools/seedcheck.sh in a fresh scratch worktree of
   "demo_exit_without_change":wo,"demo_exit_with_change":wi,
   "tests_of_touched_packages":(pk.group(1).strip().splitlines()[-4:] if pk else []),
   "checks_run_against_it":checks}
-meta['breaks_property']=ID
+meta['breaks_property']=re.sub(r'[a-z]+$','',ID)
 if wo!=0 or wi==0:
     sys.exit(f'demo not confirmed (without={wo}, with={wi})')
 shutil.rmtree(dst,ignore_errors=True); os.makedirs(dst)
